@@ -24,6 +24,10 @@ def c5(ctx):
     timing.displaybpm_rule(ctx)
 
 
+def c6(ctx):
+    timing.beatvalues_codec(ctx, judge_source=False)
+
+
 def c_api(ctx):
     baseline.surface(ctx, "C15: documented surface", modules=['simfile.timing', 'simfile.timing.displaybpm', 'simfile.timing._private.timingsource'])
 
@@ -31,5 +35,6 @@ CLAUSES = [
     ("C15.1-2", "the eleven properties; the rule (R-TABLE, predicate atoms)", c1),
     ("C15.3-4", "never mixed (R-SINGLE); offset default", c3),
     ("C15.5", "DISPLAYBPM dispatch", c5),
+    ("C15.6", "every row of the chosen source's BPMS / STOPS / DELAYS / WARPS becomes one event, in order (shared with C14)", c6),
     ("C15.api", "public surface: signatures and defaults, constants, enumerations, blank templates, base classes as confirmed (R-API)", c_api),
 ]
